@@ -175,6 +175,9 @@ int __wrap_close (int fd) {
 	if (a_on) {
 		w_closes++;
 		if (fcntl (fd, F_GETFD) == -1) w_badclose++;      /* not open: closed twice, or never opened */
+		/* scripted: the close is interrupted by a handled signal.  On Linux the descriptor is released all the same
+		 * (close(2): retrying is wrong, the number may already belong to somebody else) */
+		if (take_fail ("close")) { __real_close (fd); errno = EINTR; return -1; }
 	}
 	return __real_close (fd);
 }
